@@ -14,7 +14,7 @@ OWN = {"C13": {"sound", "stored", "noPanic"}}
 # deviation config -> invariant it must violate (non-vacuity of the model's properties)
 DEV_CFGS = [
     ("MC_SP_DevNoRootCheck.cfg", "Sound"), ("MC_SP_DevNoLinkCheck.cfg", "Sound"), ("MC_SP_DevNoPathConsumed.cfg", "Sound"),
-    ("MC_SP_DevNoLastHash.cfg", "Sound"), ("MC_SP_DevNoCodeHash.cfg", "Sound"), ("MC_SP_DevNoAcctCodeHash.cfg", "Sound"),
+    ("MC_SP_DevNoLastHash.cfg", "Sound"), ("MC_SP_DevNoCodeHash.cfg", "Sound"), ("MC_SP_DevNoAcctCodeHash.cfg", "Sound"), ("MC_SP_DevNoAcctCodeHashIfEmpty.cfg", "Sound"),
     ("MC_SP_DevStoreFirst.cfg", "StoredFinal"),
     # what the code does today (listed findings): the model reproduces each as a violation of the property
     ("MC_SP_DevLeafValueAsRef.cfg", "Sound"), ("MC_SP_DevShortPathPanics.cfg", "NoPanic"),
